@@ -809,3 +809,158 @@ def g7_violations(prop: str, gen: Gen, derives: List[str]) -> Tuple[List[Any], d
             out.append(Violation(prop, "G7: a derive that lists every declared variant does not consult the `disabled` flag", "%s:G7:disabled-read:%s" % (prop, d),
                                  "derive %s reaches %s, which reads StrumVariantProperties.disabled" % (d, [gen.short(x) for x in reads[d]]), {"generator_fn": gen.entries[d]["path"], "derive": d}))
     return out, {"G7_disabled_readers": {d: [gen.short(x) for x in reads.get(d, [])] for d in derives if d in gen.entries}}
+
+
+# ------------------------------------------------------------------------------------------------
+# G8: decision-input inventory.  The witness corpus varies the decision inputs of the generator
+# (DESIGN.md §3.3).  A branch condition that inspects the *content or position* of user input in a way
+# that is not in the vetted inventory is a special case the corpus does not vary: translation
+# validation of the corpus then says nothing about it, and the check reports that it cannot establish
+# the property for that derive.
+# ------------------------------------------------------------------------------------------------
+
+CONTENT_METHODS = {
+    "contains", "starts_with", "ends_with", "is_empty", "len", "count", "first", "last", "nth", "position", "find", "rfind", "chars", "bytes",
+    "is_ascii", "is_ascii_uppercase", "is_ascii_lowercase", "is_ascii_alphabetic", "is_ascii_alphanumeric", "is_ascii_digit", "is_uppercase", "is_lowercase",
+    "is_digit", "is_alphabetic", "is_alphanumeric", "is_numeric", "is_whitespace", "eq", "ne", "is_ident", "eq_ignore_ascii_case", "trim", "trim_start", "trim_end",
+    "split", "matches", "get", "contains_key", "char_indices", "is_char_boundary", "strip_prefix", "strip_suffix", "parse", "to_lowercase", "to_uppercase",
+    "to_ascii_lowercase", "to_ascii_uppercase", "cmp", "partial_cmp", "min", "max", "skip", "take", "rev", "step_by", "enumerate", "zip", "windows", "chunks",
+    "sort", "sort_by", "sort_by_key", "dedup", "retain", "truncate", "insert", "next", "peek",
+}
+PREDICATE_ADAPTERS = {"filter", "filter_map", "take_while", "skip_while", "any", "all", "find", "position", "find_map", "map_while", "max_by_key", "min_by_key", "retain", "partition"}
+
+
+def _walk_no_macro(n: Any, keep=("matches",)):
+    if isinstance(n, dict):
+        if n.get("k") == "macro" and n.get("name") not in keep:
+            return
+        yield n
+        for k, v in n.items():
+            if k in ("ty", "at", "base_ty"):
+                continue
+            for x in _walk_no_macro(v, keep):
+                yield x
+    elif isinstance(n, list):
+        for v in n:
+            for x in _walk_no_macro(v, keep):
+                yield x
+
+
+def _lit_text(e: Any) -> Optional[str]:
+    e = H.strip(e)
+    if isinstance(e, dict) and e.get("k") == "ref":
+        e = H.strip(e["e"])
+    if isinstance(e, dict) and e.get("k") == "lit":
+        return "%s:%s" % (e.get("ty"), e.get("v"))
+    return None
+
+
+def _norm_src(s: str) -> str:
+    s = re.sub(r"local:&?(mut )?([A-Za-z_0-9]+)<.*?>(?=[\])(, ]|$)", r"local:\2", s)
+    s = re.sub(r"local:([A-Za-z_0-9]+)<.*>", r"local:\1", s)
+    return s
+
+
+def decision_atoms(f: dict) -> List[Tuple[str, str, str]]:
+    """(atom signature, text, location) for every content/position inspecting operation inside a branch condition,
+    match guard, `while` condition or predicate closure of `f` (code inside macro expansions excluded)."""
+    out: List[Tuple[str, str, str]] = []
+    conds: List[Any] = []
+    for n in _walk_no_macro(f["body"]["tree"]):
+        k = n.get("k")
+        if k == "if":
+            c = H.strip(n["cond"])
+            conds.append(c["init"] if isinstance(c, dict) and c.get("k") == "let_expr" else c)
+        elif k == "match" and n.get("src") in ("Normal", None):
+            for a in n["arms"]:
+                if a.get("guard") is not None:
+                    conds.append(a["guard"])
+                for alt in H.pat_alternatives(a["pat"]):
+                    for pn in H.walk(alt):
+                        if pn.get("k") == "plit":
+                            out.append(("match-literal %s :: %s" % (_norm_src(source_sig(n["scrut"], 2)), _lit_text(pn["lit"])), H.brief(n["scrut"], 60), n.get("at", "")))
+        elif k == "mcall" and n["name"] in PREDICATE_ADAPTERS:
+            for a in n["args"]:
+                a_ = H.strip(a)
+                if isinstance(a_, dict) and a_.get("k") == "closure":
+                    conds.append(a_["body"])
+                elif isinstance(a_, dict) and a_.get("k") == "path":
+                    out.append(("adapter %s(%s)" % (n["name"], short_def(a_.get("def"))), H.brief(n, 80), n.get("at", "")))
+            out.append(("adapter %s on %s" % (n["name"], _norm_src(source_sig(n["recv"], 2))), H.brief(n, 80), n.get("at", "")))
+    for c in conds:
+        for n in _walk_no_macro(c):
+            k = n.get("k")
+            if k == "mcall" and n["name"] in CONTENT_METHODS:
+                lits = [x for x in (_lit_text(a) for a in n["args"]) if x]
+                out.append(("%s(%s)%s" % (n["name"], _norm_src(source_sig(n["recv"], 2)), (" " + ",".join(lits)) if lits else ""), H.brief(n, 80), n.get("at", "")))
+            elif k == "bin" and n.get("op") in ("==", "!=", "<", ">", "<=", ">="):
+                ll, rl = _lit_text(n["l"]), _lit_text(n["r"])
+                if ll or rl or any(isinstance(H.strip(x), dict) and H.strip(x).get("k") == "mcall" and H.strip(x)["name"] in ("len", "count") for x in (n["l"], n["r"])):
+                    out.append(("cmp %s %s %s" % (ll or _norm_src(source_sig(n["l"], 2)), n["op"], rl or _norm_src(source_sig(n["r"], 2))), H.brief(n, 80), n.get("at", "")))
+    return out
+
+
+# The inventory of the vetted tree (py/vetted_atoms.json): every atom was read and matched to a corpus / witness
+# dimension; `why` is the dimension that varies it.  Frozen by selftest/freeze_atoms.py, never at check time.
+ATOM_REASONS = [
+    (r"^match-literal local:&str :: str:", "style strings: all 16 accepted strings are in the corpus and in G5's table"),
+    (r"is_digit|cmp local:usize != int:0", "snakify: identifiers with digit runs in every position (identifier dictionary; exhaustive identifiers in the thorough tier)"),
+    (r"next\(local:Chars", "camelCase: first character lower-cased (casing family)"),
+    (r"peek\(", "attribute keyword dispatch: every strum / strum_discriminants key is used by the corpus and by the witnesses"),
+    (r"is_ident|Attribute|attrs|TokenStream|IntoIter|str:repr", "attribute selection by path (strum, strum_discriminants, doc, repr, copied attributes): all attribute kinds, in several orders"),
+    (r"max_by_key|LitStr::value", "preferred name: longest serialize (all orders of three lengths in the corpus)"),
+    (r"FieldsUnnamed|FieldsNamed|enumerate", "field arity: kinds t0..t3 / n0..n3 in the corpus, witnesses for 0 and 2 fields"),
+    (r"lifetimes|type_params", "generic parameters: generic family and lifetime witnesses"),
+    (r"Vec::len\(local:Vec\) < Punctuated::len|len\(local:Punctuated\)|len\(local:Vec\)", "wildcard arm needed iff some variant has no arm (disabled placement dimension)"),
+    (r"starts_with|== int:1|len\(local:&?Vec\)|is_empty", "documentation assembly, empty spelling list / arm list (messages and naming families)"),
+    (r"byte:123|byte:125|contains|String::is_empty|split|any on iter", "placeholder scanning of the literal (placeholders family + witnesses)"),
+    (r"Path.segments|PathSegment", "repr: last path segment among the ten integer types (11 reprs in the corpus)"),
+    (r"insert\(local:HashSet", "phf duplicate-key suppression (unit_strings family with twins)"),
+    (r"filter_map on IntoIterator::into_iter\(local:Vec", "EnumIs / EnumTryAs iterate the pre-filtered enabled variants"),
+    (r"local:String == str:1|DeriveInput.ident == local:String", "STRUM_DEBUG printing: no effect on the expansion"),
+]
+
+
+def load_vetted_atoms() -> Dict[str, Dict[str, str]]:
+    """derive -> {atom -> why}"""
+    import json
+    import os
+    p = os.path.join(os.path.dirname(os.path.abspath(__file__)), "vetted_atoms.json")
+    with open(p) as f:
+        per = json.load(f)["per_derive"]
+    out: Dict[str, Dict[str, str]] = {}
+    for d, atoms in per.items():
+        out[d] = {}
+        for a in atoms:
+            out[d][a] = next((r for pat, r in ATOM_REASONS if re.search(pat, a)), "read and matched to a corpus dimension")
+    return out
+
+
+def atoms_per_derive(gen: Gen) -> Dict[str, Dict[str, Tuple[str, str, str]]]:
+    """derive -> {atom -> (fn, text, at)} over the functions reachable from the derive's entry point."""
+    per_fn: Dict[str, List[Tuple[str, str, str]]] = {}
+    out: Dict[str, Dict[str, Tuple[str, str, str]]] = {}
+    for d, f in gen.entries.items():
+        out[d] = {}
+        for p in sorted(gen.reach(f["path"])):
+            if "kw::" in p:
+                continue
+            if p not in per_fn:
+                per_fn[p] = decision_atoms(gen.fns[p])
+            for atom, text, at in per_fn[p]:
+                out[d].setdefault(atom, (gen.short(p), text, at))
+    return out
+
+
+def g8_new_atoms(gen: Gen, derives: List[str]) -> Tuple[List[Tuple[str, str, str, str, str]], int]:
+    """Decision atoms outside the vetted inventory of their derive: (derive, atom, fn, text, at)."""
+    vetted = load_vetted_atoms()
+    cur = atoms_per_derive(gen)
+    out = []
+    total = 0
+    for d in derives:
+        for atom, (fn, text, at) in sorted(cur.get(d, {}).items()):
+            total += 1
+            if atom not in vetted.get(d, {}):
+                out.append((d, atom, fn, text, at))
+    return out, total
